@@ -270,3 +270,17 @@ func init() {
 			}},
 	)
 }
+
+func init() {
+	units = append(units,
+		Unit{Group: "Match", Name: "Match", Pkg: typesP, Func: "Match",
+			Params: []gparam{{Go: "matchPrice", T: "Dec"}, {Go: "prices", T: "List Dec"}, {Go: "bidsByPrice", T: "Map Dec List Bid"},
+				{Go: "sellingAmt", T: "Int"}, {Go: "allowedBidders", T: "List Allowed"}},
+			Ret: []LT{"Option MState", "Bool"}, Named: []string{"res", "matched"}, NamedTypes: map[string]LT{"res": "MState", "matched": "Bool"},
+			Alias: map[string]aliasSpec{"bidderRes": {Base: "res", Field: "MatchResultByBidder", Key: "bid", KeyField: ".bidder"}}},
+		Unit{Group: "Match", Name: "CalculateFixedPriceAllocation", Pkg: keeperP, Recv: "Keeper", RecvLean: "Keeper", Func: "CalculateFixedPriceAllocation",
+			Params: []gparam{{Go: "k", T: "Keeper"}, {Go: "ctx"}, {Go: "auction", T: "Auction"}, {Go: "bids__", T: "List Bid", Oracle: true}},
+			Ret:    []LT{"MInfoG", "Err"},
+			Calls:  map[string]callSpec{"k.GetBidsByAuctionId": {Value: V{"(bids__, false)", "(List Bid × Err)"}}}},
+	)
+}
